@@ -497,6 +497,10 @@ func checkKey(cfg *config, sets [][]int, key string, c *counters, report func(vi
 // one real RendezvousHash; each lookup must equal the list of a ring built
 // fresh from the current node set and be sorted by the reference score.
 
+// lookup operations of the history alphabet: -1 = all histKeys in order, else
+// the index of one key.
+var singleLookups = []int{-1, 1, 5, 8}
+
 var histKeys = []string{"0000", "00ff", "a1b2", "7fff", "ffff", "0A", "FF", "3c",
 	"e3b0c44298fc1c149afbf4c8996fb92427ae41e4649b934ca495991b7852b855",
 	"6b86b273ff34fce19d6b804eff5a3f5747ada4eaa22f1d49c01e52ddb7875b4b"}
@@ -527,7 +531,6 @@ func historyPhase(run *evid.Run, hasher string, prof profile, labels []int, dept
 		}
 	}
 	starts = append(starts, []int{})
-	var hist []op
 	describe := func(start []int, h []op) string {
 		var b strings.Builder
 		b.WriteString("start[")
@@ -545,13 +548,17 @@ func historyPhase(run *evid.Run, hasher string, prof profile, labels []int, dept
 			case 'r':
 				b.WriteString(" remove(" + universe[o.label] + ")")
 			default:
-				b.WriteString(" lookup")
+				if o.label < 0 {
+					b.WriteString(" lookup(all keys)")
+				} else {
+					b.WriteString(" lookup(" + histKeys[o.label] + ")")
+				}
 			}
 		}
 		return b.String()
 	}
-	runSeq := func(start []int, h []op) {
-		execs++
+	var mu sync.Mutex
+	runSeq := func(start []int, h []op, lookups *int) {
 		rh := newReal(hasher)
 		var cur []int // current members in insertion order
 		for _, l := range start {
@@ -579,9 +586,13 @@ func historyPhase(run *evid.Run, hasher string, prof profile, labels []int, dept
 				for _, l := range canon {
 					fresh.AddNode(universe[l], prof.weights[l])
 				}
-				for _, key := range histKeys {
+				lk := histKeys
+				if o.label >= 0 {
+					lk = histKeys[o.label : o.label+1]
+				}
+				for _, key := range lk {
 					for _, n := range []int{len(cur), 1, 2} {
-						lookups++
+						*lookups++
 						got := labelsOf(rh.GetOrderedNodes(key, n))
 						want := labelsOf(fresh.GetOrderedNodes(key, n))
 						bad := ""
@@ -599,48 +610,78 @@ func historyPhase(run *evid.Run, hasher string, prof profile, labels []int, dept
 							return
 						}
 						if n == len(cur) && len(cur) >= 2 {
+							mu.Lock()
 							outcomes[hasher+"|hist|"+strings.Join(got, ">")] = struct{}{}
+							mu.Unlock()
 						}
 					}
 				}
 			}
 		}
 	}
-	var rec func(start []int, members map[int]bool, d int)
-	rec = func(start []int, members map[int]bool, d int) {
-		if d == 0 {
-			if len(hist) > 0 && hist[len(hist)-1].kind == 'l' {
-				runSeq(start, hist)
+	explore := func(start []int) (e, l int) {
+		var hist []op
+		var rec func(members map[int]bool, d int)
+		rec = func(members map[int]bool, d int) {
+			if d == 0 {
+				// a shorter history ending in a lookup is a prefix of a longer one; only
+				// maximal sequences ending in a lookup are executed, every lookup on the
+				// way is checked.
+				if len(hist) > 0 && hist[len(hist)-1].kind == 'l' {
+					e++
+					runSeq(start, hist, &l)
+				}
+				return
 			}
-			return
-		}
-		// a shorter history ending in a lookup is a prefix of a longer one; only
-		// maximal sequences are executed, every lookup on the way is checked.
-		for _, l := range labels {
-			k := byte('a')
-			if members[l] {
-				k = 'r'
+			for _, lb := range labels {
+				k := byte('a')
+				if members[lb] {
+					k = 'r'
+				}
+				members[lb] = !members[lb]
+				hist = append(hist, op{k, lb})
+				rec(members, d-1)
+				hist = hist[:len(hist)-1]
+				members[lb] = !members[lb]
 			}
-			members[l] = !members[l]
-			hist = append(hist, op{k, l})
-			rec(start, members, d-1)
-			hist = hist[:len(hist)-1]
-			members[l] = !members[l]
+			// lookups: all keys in a row, or one single key (an implementation may
+			// remember its last question); the same lookup twice in a row adds nothing
+			for _, li := range singleLookups {
+				if n := len(hist); n > 0 && hist[n-1].kind == 'l' && hist[n-1].label == li {
+					continue
+				}
+				hist = append(hist, op{'l', li})
+				rec(members, d-1)
+				hist = hist[:len(hist)-1]
+			}
 		}
-		if len(hist) == 0 || hist[len(hist)-1].kind != 'l' { // two lookups in a row add nothing
-			hist = append(hist, op{'l', 0})
-			rec(start, members, d-1)
-			hist = hist[:len(hist)-1]
-		}
-	}
-	for _, st := range starts {
 		m := map[int]bool{}
-		for _, l := range st {
-			m[l] = true
+		for _, lb := range start {
+			m[lb] = true
 		}
-		hist = hist[:0]
-		rec(st, m, depth)
+		rec(m, depth)
+		return
 	}
+	jobs := make(chan []int, len(starts))
+	for _, st := range starts {
+		jobs <- st
+	}
+	close(jobs)
+	var wg sync.WaitGroup
+	for w := 0; w < evid.Workers(); w++ {
+		wg.Add(1)
+		go func() {
+			defer wg.Done()
+			for st := range jobs {
+				e, l := explore(st)
+				mu.Lock()
+				execs += e
+				lookups += l
+				mu.Unlock()
+			}
+		}()
+	}
+	wg.Wait()
 	for k := range outcomes {
 		run.Distinct(k)
 	}
@@ -753,7 +794,7 @@ func main() {
 			{"murmur3", profiles[1], []int{2, 3, 4, 5}, 4, all},
 		}
 	}
-	run.Rule = "one evaluation = one real GetOrderedNodes call; enumerated: every key of the key space x every node set (all subsets up to the size bound of the label universe) x every insertion permutation of the set x every single-node RemoveNode(+re-AddNode) x every single-node AddNode, per hasher and weight profile; plus, on ONE long-lived ring, every sequence of AddNode/RemoveNode/lookup operations up to depth 5 (quick) / 7 (thorough) from every start ring of <= 3 of 4 labels in every insertion order, each lookup (10 keys: four-hex, two-hex, 64-hex; n = len, 1, 2) compared with a ring built fresh from the same node set and with the reference order; a case is distinct/non-trivial when it is a different (hasher, weights, resulting order) with >= 2 nodes"
+	run.Rule = "one evaluation = one real GetOrderedNodes call; enumerated: every key of the key space x every node set (all subsets up to the size bound of the label universe) x every insertion permutation of the set x every single-node RemoveNode(+re-AddNode) x every single-node AddNode, per hasher and weight profile; plus, on ONE long-lived ring, every sequence of AddNode/RemoveNode/lookup operations up to depth 4 (quick) / 6 (thorough) from every start ring of <= 3 of 4 labels in every insertion order, each lookup (10 keys: four-hex, two-hex, 64-hex; n = len, 1, 2) compared with a ring built fresh from the same node set and with the reference order; a case is distinct/non-trivial when it is a different (hasher, weights, resulting order) with >= 2 nodes"
 	run.Assume("small-scope: node sets of size <= 4 (quick) / <= 5 (thorough) drawn from 4 (quick) / 6 (thorough) of 6 fixed labels (volume paths and host:port addresses); weights uniform 100, two fixed mixed profiles over {1,100,1000} and (for the rehash-forcing hasher) two all-different profiles")
 	run.Assume("keys: all 65536 four-hex keys, all 256 two-hex keys, a fixed table of 64-hex keys; only well-formed (even-length) hex keys -- Score is NaN for undecodable keys and the statement does not define an order for them")
 	run.Assume("reference score: own murmur3-x64-128 (cross-checked at startup against spaolacci/murmur3 on all tail lengths), low 53 bits / 2^53, rehash of the 8 hash bytes when those bits are zero, -w/ln(f); sha256 variant: 256-bit integer rounded to 53 bits / (2^256-1); reference and implementation both use math.Log of the Go runtime")
@@ -817,9 +858,9 @@ func main() {
 		run.Set(fmt.Sprintf("config_%d", ci), fmt.Sprintf("hasher=%s weights=%s labels=%d sets<=%d (%d sets) keys=%d", cfg.hasher, cfg.prof.name, len(cfg.labels), cfg.maxSet, len(use), len(cfg.keys)))
 	}
 	// history phase (long-lived ring)
-	hdepth := 5
+	hdepth := 4
 	if run.Thorough() {
-		hdepth = 7
+		hdepth = 6
 	}
 	{
 		type hc struct {
@@ -831,19 +872,12 @@ func main() {
 		if run.Thorough() {
 			hcs = append(hcs, hc{"murmur3", profiles[0], []int{0, 1, 2, 3}}, hc{"sha256", profiles[1], []int{1, 2, 4, 5}})
 		}
-		var wg sync.WaitGroup
 		var he, hl int64
 		for _, c := range hcs {
-			c := c
-			wg.Add(1)
-			go func() {
-				defer wg.Done()
-				e, l := historyPhase(run, c.hasher, c.prof, c.labels, hdepth)
-				atomic.AddInt64(&he, int64(e))
-				atomic.AddInt64(&hl, int64(l))
-			}()
+			e, l := historyPhase(run, c.hasher, c.prof, c.labels, hdepth)
+			he += int64(e)
+			hl += int64(l)
 		}
-		wg.Wait()
 		run.Set("history_depth", hdepth)
 		run.Set("history_sequences_executed", he)
 		run.Set("history_lookups_compared", hl)
